@@ -132,6 +132,25 @@ def draw_theta(draw, spec, n_ids, cov, positive=False):
     raise ValueError(k)
 
 
+def zero_scale(draw, spec, n_ids, theta, p=0.06):
+    """With probability p, the standard deviation of one NON-centred Gaussian / log-normal dimension is put exactly on
+    the boundary 0 (the individual values then all equal the location; the standard-normal score of the bottom-level
+    entries does not involve the scale at all). Plain or composed (un-nested) specs only. Returns (theta, flag)."""
+    parts = [spec] if spec['kind'] in ref.ELEM else (spec['parts'] if spec['kind'] == 'comp' else [])
+    if not parts or any(q['kind'] not in ref.ELEM for q in parts):
+        return theta, False
+    cands, off = [], 0
+    for q in parts:
+        if q['kind'] in ('gauss', 'lognorm') and not q.get('centered', True):
+            cands += [off + q['n_dim'] + d for d in range(q['n_dim'])]
+        off += ref.pop_n_par(q, n_ids)
+    if not cands or not gen.chance(draw, p):
+        return theta, False
+    theta = list(theta)
+    theta[cands[draw(st.integers(0, len(cands) - 1))]] = 0.0
+    return theta, True
+
+
 def draw_reduced(draw, spec, n_ids, cov, min_fixed=1, positive=False):
     """Wrap spec in a 'red' node fixing a subset of its parameters; returns
     (red_spec, free theta)."""
